@@ -122,7 +122,8 @@ namespace sim
             print_result(0, 0, r);
             stats().print(stdout);
             std::printf("END\n");
-            return r.violated ? 1 : 0;
+            std::fflush(stdout);
+            _exit(r.violated ? 1 : 0);
         }
         if (mode == "run")
         {
@@ -157,7 +158,7 @@ namespace sim
             stats().print(stdout);
             std::printf("END\n");
             std::fflush(stdout);
-            return bad ? 1 : 0;
+            _exit(bad ? 1 : 0); // static destruction of a process that abandoned objects proves nothing
         }
         std::fprintf(stderr, "unknown mode %s\n", mode.c_str());
         return 2;
